@@ -136,7 +136,30 @@ def params_text():
         flag = "true"
     else:
         _fail(f"recv-lock block not recognised: {ast.unparse(recv_blocks[0])!r}")
-    return f"Definition recheck_after_recv_lock : bool := {flag}.\n"
+
+    # send lock: taken always (unpatched) or only if the outgoing BIO has pending bytes (C08_send_lock_only_if_pending.diff)
+    def flush_shape(stmts, where):
+        plain = "async with self.__transport_send_lock:\n    if self._write_bio.pending:\n        await self._transport.send_all(self._write_bio.read())"
+        found = []
+        for st in stmts:
+            txt = ast.unparse(st)
+            if txt == plain:
+                found.append("false")
+            elif (isinstance(st, ast.If) and not st.orelse and ast.unparse(st.test) == "self._write_bio.pending"
+                  and len(st.body) == 1 and ast.unparse(st.body[0]) == plain):
+                found.append("true")
+            elif "send_lock" in txt:
+                _fail(f"{where}: flush block not recognised: {txt!r}")
+        if len(found) != 1:
+            _fail(f"{where}: expected exactly one flush block")
+        return found[0]
+
+    skip_wr = flush_shape(inner.body, "WANT_READ branch")
+    skip_ok = flush_shape(tries[0].orelse, "success branch")
+    if skip_wr != skip_ok:
+        _fail("the WANT_READ branch and the success branch disagree on when the send lock is taken")
+    return ("From EN Require Import Conc.TlsPump.\n"
+            f"Definition tls_flags : flags := {{| f_recheck := {flag}; f_skiplock := {skip_wr} |}}.\n")
 
 
 MARKER = b"<<PLAINTEXT-MARKER-C08>>"
@@ -304,7 +327,12 @@ def _events_to_trace(events, results):
 
 
 def current_flag():
-    return int("true" in params_text())
+    """State of the two fixes in the tree under test: f_recheck + 2 * f_skiplock."""
+    try:
+        t = params_text()
+    except runner.TranslateError:
+        return -1                # shape not recognised (the check reports that separately): no recorded state applies
+    return int("f_recheck := true" in t) + 2 * int("f_skiplock := true" in t)
 
 
 def run_two_readers(cfg):
@@ -538,6 +566,170 @@ def run_sync_duplex(cfg):
     return dict(threads=threads, out=out, info=info)
 
 
+SCENARIOS = {
+    # request/response: the reader is already waiting when the request is written; the peer answers only what it got
+    "echo": [("recv", "r", 100), ("steps", 6), ("send", "w", [10]), ("join", "r"), ("join", "w")],
+    "echo-2": [("recv", "r", 100), ("steps", 3), ("send", "w", [3, 4]), ("join", "r"), ("join", "w"),
+               ("recv", "r2", 100), ("send", "w2", [300]), ("join", "r2"), ("join", "w2")],
+    # a send_all queued behind a parked one is abandoned (cancelled); the stream must stay intact for later writes
+    "abandoned-send": [("gate", 0), ("send", "w1", [40]), ("steps", 6), ("send", "w2", [50]), ("steps", 6), ("cancel", "w2"),
+                       ("steps", 4), ("gate", 1), ("join", "w1"), ("send", "w3", [60]), ("join", "w3")],
+    # data is already in flight towards us while our own send_all is parked by back-pressure
+    "backpressure-read": [("peer_write", 100), ("gate", 0), ("send", "w", [10]), ("steps", 6), ("recv", "r", 100),
+                          ("join", "r"), ("gate", 1), ("join", "w")],
+    # a recv() that has already decrypted its bytes is cancelled while it queues on the send lock
+    "cancel-after-read": [("peer_write", 30), ("recv", "r0", 5), ("join", "r0"), ("gate", 0), ("send", "w", [10]), ("steps", 6),
+                          ("recv", "r1", 5), ("steps", 6), ("cancel", "r1"), ("steps", 4), ("gate", 1), ("join", "w"),
+                          ("recv", "r2", 5), ("join", "r2")],
+}
+SCENARIO_CODES = {name: i for i, name in enumerate(SCENARIOS)}
+# scenarios that fail on a tree without the corresponding fix: reported through the corpus / known_findings only
+KNOWN_SCENARIO_SIGNATURES = {"backpressure-read": "reader-queues-on-send-lock-with-nothing-to-flush",
+                             "cancel-after-read": "cancelled-recv-loses-decrypted-plaintext"}
+
+
+def run_scenario(cfg):
+    """A scripted full-duplex situation (see SCENARIOS) on the real AsyncTLSStreamTransport."""
+    from easynetwork.lowlevel.api_async.transports.tls import AsyncTLSStreamTransport
+
+    name = cfg["name"]
+    script = SCENARIOS[name]
+    rec = K.Recorder()
+    ver, client = cfg["ver"], bool(cfg["client"])
+    if client:
+        peer = K.Peer(K.server_ctx(ver), True, [])
+        ctx = K.RecContext(K.client_ctx(ver), rec)
+    else:
+        peer = K.Peer(K.client_ctx(ver), False, [])
+        ctx = K.RecContext(K.server_ctx(ver), rec)
+    peer.echo = name.startswith("echo")
+    info = dict(results={}, recvd={}, stuck=[], deadlock=False, sent={}, order=[])
+    peer_plain = bytearray()
+
+    async def main():
+        rec.name_task(0)
+        tr = K.MemTransport(rec, peer, K.RecBackend(K.new_backend(), rec))
+        tr.peer_silent_eof = False
+        if not client:
+            tr.stream += peer.pump()
+        op = rec.begin_op(K.M_HANDSHAKE, 0, [])
+        with K.patched_ssl_module(rec):
+            t = await AsyncTLSStreamTransport.wrap(tr, ctx, server_side=not client,
+                                                   server_hostname="localhost" if client else None)
+        info["results"][op] = [0, 0]
+        tasks = {}
+
+        async def do_recv(tag, n):
+            op = rec.begin_op(K.M_READ, n, [])
+            try:
+                d = await t.recv(n)
+                info["results"][op] = [0, len(d)]
+                info["recvd"][tag] = d
+                info["order"].append(tag)
+            except BaseException as exc:
+                info["results"][op] = [1, _exc_code(exc)]
+                raise
+
+        async def do_send(tag, sizes):
+            datas = [_plain(n, b"T" + tag.encode() + b".%d" % j) for j, n in enumerate(sizes)]
+            info["sent"][tag] = b"".join(datas)
+            op = rec.begin_op(K.M_WRITE, 0, sizes)
+            try:
+                if len(datas) == 1:
+                    await t.send_all(datas[0])
+                else:
+                    await t.send_all_from_iterable(datas)
+                info["results"][op] = [0, 0]
+                info["order"].append(tag)
+            except BaseException as exc:
+                info["results"][op] = [1, _exc_code(exc)]
+                raise
+
+        for cmd in script:
+            what = cmd[0]
+            if what == "recv":
+                tasks[cmd[1]] = asyncio.ensure_future(do_recv(cmd[1], cmd[2]))
+                await asyncio.sleep(0)
+            elif what == "send":
+                tasks[cmd[1]] = asyncio.ensure_future(do_send(cmd[1], cmd[2]))
+                await asyncio.sleep(0)
+            elif what == "steps":
+                for _ in range(cmd[1]):
+                    await asyncio.sleep(0)
+            elif what == "gate":
+                (tr.writable.set if cmd[1] else tr.writable.clear)()
+            elif what == "peer_write":
+                d = _plain(cmd[1], b"P%d" % len(peer_plain))
+                peer_plain.extend(d)
+                peer.obj.write(d)
+                tr.stream += peer.out.read()
+                tr.data_event.set()
+            elif what == "cancel":
+                tasks[cmd[1]].cancel()
+            elif what == "join":
+                for _ in range(200):
+                    if tasks[cmd[1]].done():
+                        break
+                    await asyncio.sleep(0)
+                else:
+                    info["stuck"].append(cmd[1])
+        info["events_end"] = len(rec.events)
+        info["wpending"] = t._write_bio.pending
+        info["peer_got"] = bytes(peer.plain_in)
+        for x in tasks.values():
+            x.cancel()
+        await asyncio.gather(*tasks.values(), return_exceptions=True)
+        tr.peer_silent_eof = True
+        tr.writable.set()
+        try:
+            await t.aclose()
+        except BaseException:
+            pass
+
+    try:
+        detloop.run(main())
+    except detloop.DeadlockError:
+        info["deadlock"] = True
+    events = rec.events[: info.get("events_end", len(rec.events))]
+    labels, obs, results = _events_to_trace(events, info["results"])
+    problems = []
+    if info["deadlock"]:
+        problems.append("deadlock: the event loop would block forever")
+    if name == "backpressure-read" and "r" in info["stuck"]:
+        problems.append("recv() could not return data already in flight while another task's send_all() was parked by "
+                        "back-pressure: the reader queues on the send lock although the outgoing BIO is empty")
+    elif name == "cancel-after-read":
+        got = b"".join(info["recvd"].get(k, b"") for k in ("r0", "r1", "r2"))
+        if got != bytes(peer_plain)[: len(got)]:
+            problems.append("plaintext already decrypted by a recv() was lost when that recv() was cancelled while queueing on "
+                            "the send lock (nothing to flush): the next recv() skips it")
+        elif info["stuck"]:
+            problems.append(f"stuck: {info['stuck']} did not complete")
+    elif info["stuck"]:
+        problems.append(f"stuck: {info['stuck']} did not complete although nothing prevents it "
+                        "(request/response or abandoned-send scenario)")
+    if name.startswith("echo") and not problems:
+        sent = b"".join(info["sent"][k] for k in info["sent"])
+        got = b"".join(info["recvd"].get(k, b"") for k in ("r", "r2"))
+        if got != sent[: len(got)] or not got:
+            problems.append("echoed plaintext is not a prefix of the plaintext written")
+    if name == "abandoned-send" and not problems:
+        a_, b_, c_ = (info["sent"][k] for k in ("w1", "w2", "w3"))
+        if peer.read_error is not None:
+            problems.append("TLS stream damaged after an abandoned send_all(): the peer's TLS layer rejected the stream")
+        elif info["peer_got"] not in (a_ + c_, a_ + b_ + c_):
+            problems.append("after an abandoned send_all() the peer decrypted neither A+C nor A+B+C")
+    if MARKER in bytes(rec.cipher_out):
+        problems.append("plaintext marker found in the bytes handed to the wrapped transport (sent unencrypted)")
+    info.update(problems=problems, events=events)
+    return dict(labels=labels, out=[obs, results, info.get("wpending", 0), 0, 0], info=info)
+
+
+def current_state():
+    """Which fixes the tree under test has (bit 0: lost-wakeup re-check)."""
+    return current_flag()
+
+
 def check_run(cfg, rec, peer, info, events):
     problems = []
     if info["deadlock"]:
@@ -582,6 +774,8 @@ def _sx_cfg(f):
     if isinstance(f[0], bytes) and f[0] == b"sync-duplex":
         return dict(kind="sync-duplex", ver=f[1], client=f[2], writes=list(f[3]), peer_writes=list(f[4]), frag=f[5],
                     seed=f[6], recv_size=f[7], into=f[8])
+    if isinstance(f[0], bytes) and f[0] == b"scenario":
+        return dict(kind="scenario", flag=f[1], name=list(SCENARIOS)[f[2]], ver=f[3], client=f[4])
     if isinstance(f[0], bytes):
         return dict(kind="two-readers", flag=f[1], ver=f[2], client=f[3])
     return dict(ver=f[0], client=f[1], writes=[w[0] if len(w) == 1 else list(w) for w in f[2]], peer_writes=list(f[3]),
@@ -595,6 +789,16 @@ def _build(cfg):
         inp = sx.norm([1, 1, r["threads"], [b"sync-duplex", cfg["ver"], int(cfg["client"]), list(cfg["writes"]),
                                            list(cfg["peer_writes"]), cfg["frag"], cfg["seed"], cfg["recv_size"], int(cfg.get("into", 0))]])
         out = sx.norm(r["out"])
+        _MEMO[sx.to_text(inp)] = out
+        return inp, out, r["info"]
+    if cfg.get("kind") == "scenario":
+        r = run_scenario(cfg)
+        inp = sx.norm([r["labels"], [b"scenario", cfg["flag"], SCENARIO_CODES[cfg["name"]], cfg["ver"], int(cfg["client"])]])
+        out = list(r["out"])
+        known = cfg["name"] in KNOWN_SCENARIO_SIGNATURES and not scenario_fixed(cfg["name"])
+        if r["info"]["problems"] and not known:
+            out.append([b"assertion failed on the real run: " + r["info"]["problems"][0].encode()])
+        out = sx.norm(out)
         _MEMO[sx.to_text(inp)] = out
         return inp, out, r["info"]
     if cfg.get("kind") == "two-readers":
@@ -615,7 +819,7 @@ def run_impl(inp):
     if key in _MEMO:
         return _MEMO[key]
     cfg = _sx_cfg(inp[-1])
-    if cfg.get("kind") == "two-readers" and cfg["flag"] != current_flag():
+    if cfg.get("kind") in ("two-readers", "scenario") and cfg["flag"] != current_state():
         return [777]            # recorded for the other state of the lost-wakeup fix: not applicable to this tree
     inp2, out, _info = _build(cfg)
     if cfg.get("kind") == "sync-duplex":
@@ -657,7 +861,7 @@ def cases(tier, rng, escalate):
     cap = 12000 if thorough else 2500          # labels per case (longer traces are left to the other families)
     def weight(c):
         return len(c["input"][0]) if isinstance(c["input"][0], list) else 50
-    allc = [c for c in _gen(thorough, rng) if weight(c) <= cap] + list(_gen_sync(thorough, rng))
+    allc = [c for c in _gen(thorough, rng) if weight(c) <= cap] + list(_gen_sync(thorough, rng)) + list(_gen_scenarios(thorough, rng))
     allc.sort(key=lambda c: -weight(c))
     nb = max(1, -(-len(allc) // 400))
     buckets = [allc[b::nb] for b in range(nb)]
@@ -676,6 +880,22 @@ def cases(tier, rng, escalate):
             if i < len(b):
                 out.append(b[i])
     return out
+
+
+def scenario_fixed(name):
+    """Has the tree under test the fix that makes this (formerly failing) scenario pass?"""
+    return current_flag() >= 0 and bool(current_flag() & 2)
+
+
+def _gen_scenarios(thorough, rng):
+    state = current_state()
+    for name in SCENARIOS:
+        if name in KNOWN_SCENARIO_SIGNATURES and not scenario_fixed(name):
+            continue                      # witnesses of known findings live in corpus/C08
+        for ver in (13, 12):
+            for client in (1, 0):
+                inp, _out, info = _build(dict(kind="scenario", flag=state, name=name, ver=ver, client=client))
+                yield dict(input=inp, nontrivial=True, tags=["scenario", name, f"tls1.{ver - 10}", "client" if client else "server"])
 
 
 def _gen_sync(thorough, rng):
@@ -747,23 +967,40 @@ def _gen(thorough, rng):
                 yield _case(cfg, ["send-fails"])
 
 
+_KNOWN_ASKED = set()
+
+
 def oracle(inp):
     cfg = _sx_cfg(inp[-1])
-    r = (run_two_readers(cfg) if cfg.get("kind") == "two-readers" else
+    if cfg.get("kind") in ("scenario", "two-readers") and cfg.get("flag") != current_state():
+        return None              # witness recorded for another state of the fixes: says nothing about this tree
+    r = (run_scenario(cfg) if cfg.get("kind") == "scenario" else
+         run_two_readers(cfg) if cfg.get("kind") == "two-readers" else
          run_sync_duplex(cfg) if cfg.get("kind") == "sync-duplex" else run_duplex(cfg))
     problems = r["info"]["problems"]
+    if problems and signature(inp, problems[0]) in set(KNOWN_SCENARIO_SIGNATURES.values()) | {"lost-wakeup-after-recv-lock"}:
+        # a known finding is reported once per input (the runner's known-findings pass comes first); the search for a
+        # NEW failing input after a broken tie must not stop at it
+        key = sx.to_text(sx.norm(inp))
+        if key in _KNOWN_ASKED:
+            return None
+        _KNOWN_ASKED.add(key)
     return problems[0] if problems else None
 
 
 def signature(inp, failure):
     if failure.startswith("lost wakeup after waiting for the recv lock"):
         return "lost-wakeup-after-recv-lock"
+    if failure.startswith("recv() could not return data already in flight"):
+        return KNOWN_SCENARIO_SIGNATURES["backpressure-read"]
+    if failure.startswith("plaintext already decrypted by a recv() was lost"):
+        return KNOWN_SCENARIO_SIGNATURES["cancel-after-read"]
     return failure.split(":")[0][:60]
 
 
 def shrink(inp):
     cfg = _sx_cfg(inp[-1])
-    if cfg.get("kind") in ("two-readers", "sync-duplex"):
+    if cfg.get("kind") in ("two-readers", "sync-duplex", "scenario"):
         return
     if len(cfg["writes"]) > 1:
         for i in range(len(cfg["writes"])):
